@@ -132,3 +132,30 @@ struct Big {
     1: optional string a
     2: optional binary b
 }
+
+// container and struct defaults (the oracle only demands that the two
+// decoding paths agree for these)
+struct ContainerDefaults {
+    1: optional list<i32> nums = [1, 2]
+    2: optional map<string, i32> counts = {"a": 1}
+    3: optional set<string> tags = ["x"]
+    4: optional i32 plain = 9
+}
+
+const string BANNER = "line one\r\nline \"two\"\\"
+const string PLAIN = "hello"
+const i32 ANSWER = 42
+const i64 LARGE = 5000000000
+const bool YES = true
+const double RATIO = 2.5
+const Color FAVORITE = Color.GREEN
+const byte SMALL = -7
+
+// single-field types used with two-element containers (see C14)
+struct OneSliceSet {
+    1: optional set<i64> (go.type = "slice") items
+}
+
+struct OneStructSet {
+    1: optional set<Point> points
+}
